@@ -165,6 +165,234 @@ def cmd_tests(pattern=None):
     return out
 
 
+# ------------------------------------------------------------------------------------------------
+# fresh, populated filesystems
+# ------------------------------------------------------------------------------------------------
+PROFILES = [
+    # name, size, mke2fs arguments
+    ("ext2_1k", "8M", ["-t", "ext2", "-b", "1024"]),
+    ("ext3_1k", "8M", ["-t", "ext3", "-b", "1024"]),
+    ("ext4_1k", "8M", ["-t", "ext4", "-b", "1024"]),
+    ("ext4_4k", "32M", ["-t", "ext4", "-b", "4096"]),
+    ("bigalloc_4k", "32M", ["-t", "ext4", "-b", "4096", "-O", "bigalloc", "-C", "16384"]),
+    ("bigalloc_1k", "16M", ["-t", "ext4", "-b", "1024", "-O", "bigalloc,^resize_inode", "-C", "4096"]),
+    ("64bit_meta_bg", "32M", ["-t", "ext4", "-b", "1024", "-O", "64bit,meta_bg,^resize_inode", "-g", "1024"]),
+    ("flex_bg4", "16M", ["-t", "ext4", "-b", "1024", "-G", "4", "-g", "2048"]),
+    ("no_flex_bg", "16M", ["-t", "ext4", "-b", "1024", "-O", "^flex_bg", "-g", "2048"]),
+    ("inline_data", "8M", ["-t", "ext4", "-b", "1024", "-O", "inline_data"]),
+    ("ea_inode", "8M", ["-t", "ext4", "-b", "1024", "-O", "ea_inode"]),
+    ("csum_quota", "8M", ["-t", "ext4", "-b", "1024", "-O", "quota,project", "-I", "256"]),
+    ("uninit_bg_nocsum", "16M", ["-t", "ext4", "-b", "1024", "-O", "^metadata_csum,uninit_bg", "-g", "2048"]),
+    ("sparse_super2", "16M", ["-t", "ext4", "-b", "1024", "-O", "sparse_super2", "-g", "1024", "-E", "num_backup_sb=2"]),
+    ("inode128", "8M", ["-t", "ext4", "-b", "1024", "-I", "128"]),
+    ("mmp", "8M", ["-t", "ext4", "-b", "1024", "-O", "mmp"]),
+]
+
+
+def make_tree(root, nlong=420):
+    """host tree copied by `mke2fs -d`"""
+    import random
+    rnd = random.Random(7)
+    os.makedirs(root + "/d1/d2/d3")
+    os.makedirs(root + "/bigdir")
+    os.makedirs(root + "/emptydir")
+    for k in range(nlong):
+        name = ("n%04d_" % k) + "".join(rnd.choice("abcdefghijklmnopqrstuvwxyz") for _ in range(230))
+        open(root + "/bigdir/" + name, "w").close()
+    for k in range(40):
+        with open(root + "/d1/s%02d" % k, "wb") as f:
+            f.write(rnd.randbytes(rnd.choice((0, 1, 30, 59, 60, 61, 100, 160, 700, 1023, 1024, 1025, 5000))))
+    with open(root + "/big400k", "wb") as f:
+        f.write(rnd.randbytes(400 * 1024))            # 12 direct + ind + dind with 1 KiB blocks
+    with open(root + "/frag", "wb") as f:              # many extents -> extent tree depth 1
+        for k in range(14):
+            f.seek(k * 65536)
+            f.write(rnd.randbytes(8192))
+    with open(root + "/sparse", "wb") as f:
+        f.seek(300000)
+        f.write(b"tail")
+        f.truncate(1 << 20)
+    with open(root + "/d1/d2/d3/deep", "w") as f:
+        f.write("deep file\n")
+    os.symlink("big400k", root + "/fastlink")
+    os.symlink("d1/" + "x" * 100, root + "/slowlink")
+    os.link(root + "/big400k", root + "/d1/hardlink")
+    os.link(root + "/d1/s05", root + "/d1/d2/hl2")
+    os.chmod(root + "/d1/s07", 0o4755)
+    os.chmod(root + "/d1/d2", 0o1777)
+
+
+DEBUGFS_SCRIPT = """\
+cd /
+mknod cdev c 1 3
+mknod bdev b 8 1
+mknod fifo p
+ea_set /d1/s03 user.small v1
+ea_set /d1/s03 user.second value-two
+ea_set /d1/s04 trusted.t tvalue
+ea_set -f %(work)s/xv600 /d1/s10 user.blockval
+ea_set -f %(work)s/xv600 /d1/s11 user.blockval
+ea_set /d1/d2 user.ondir dirvalue
+ea_set /fastlink user.onlink lv
+write %(work)s/wfile written_by_debugfs
+mkdir dbgdir
+symlink dbgdir/sl /d1/s01
+"""
+
+
+def shared_xattr_block(img, a_path, b_path):
+    """make inode b share a's xattr block (h_refcount 2), recomputing the checksums with the reader's own crc32c.
+    b must not have an xattr block of its own.  -> True if done"""
+    import struct
+    R = ext4read.Reader(img)
+    P = R.project()
+    byp = {t["path"]: t["ino"] for t in P["tree"]}
+    ia, ib = byp.get(a_path), byp.get(b_path)
+    if not ia or not ib:
+        return False
+    A, B = R.inodes_by_no[ia], R.inodes_by_no[ib]
+    blk = A["facl"]
+    if not blk or B["facl"]:
+        return False
+    bs = R.bs
+    with open(img, "r+b") as f:
+        # xattr block: refcount 2
+        buf = bytearray(R.blk(blk))
+        struct.pack_into("<I", buf, 4, 2)
+        if R.meta_csum:
+            struct.pack_into("<I", buf, 16, 0)
+            c = ext4read.crc32c(R.seed, struct.pack("<Q", blk))
+            c = ext4read.crc32c(c, bytes(buf))
+            struct.pack_into("<I", buf, 16, c)
+        f.seek(blk * bs)
+        f.write(buf)
+        # inode b: file_acl, i_blocks
+        off = R.inode_off(ib)
+        raw = bytearray(B["raw"])
+        struct.pack_into("<I", raw, 104, blk)
+        nb = struct.unpack_from("<I", raw, 28)[0] + (bs // 512) * R.cr
+        struct.pack_into("<I", raw, 28, nb)
+        if R.meta_csum:
+            struct.pack_into("<H", raw, 124, 0)
+            hi = R.isize > 128 and struct.unpack_from("<H", raw, 128)[0] >= 4
+            if hi:
+                struct.pack_into("<H", raw, 130, 0)
+            c = ext4read.crc32c(R.seed, struct.pack("<I", ib))
+            c = ext4read.crc32c(c, bytes(raw[100:104]))
+            c = ext4read.crc32c(c, bytes(raw))
+            struct.pack_into("<H", raw, 124, c & 0xFFFF)
+            if hi:
+                struct.pack_into("<H", raw, 130, c >> 16)
+        f.seek(off)
+        f.write(raw)
+    return True
+
+
+def build_fresh(bdir, env, work):
+    """-> list of (name, image, notes)"""
+    src = os.path.join(work, "src")
+    if os.path.exists(src):
+        shutil.rmtree(src)
+    make_tree(src)
+    import random
+    rnd = random.Random(11)
+    with open(os.path.join(work, "xv600"), "wb") as f:
+        f.write(bytes(rnd.choice(b"abcdefgh") for _ in range(600)))
+    with open(os.path.join(work, "xv5000"), "wb") as f:
+        f.write(bytes(rnd.choice(b"ABCDEFGH") for _ in range(5000)))
+    with open(os.path.join(work, "wfile"), "wb") as f:
+        f.write(rnd.randbytes(3000))
+    mke2fs = os.path.join(bdir, "misc", "mke2fs")
+    debugfs = os.path.join(bdir, "debugfs", "debugfs")
+    e2fsck = os.path.join(bdir, "e2fsck", "e2fsck")
+    out = []
+    for name, size, args in PROFILES:
+        img = os.path.join(work, name + ".img")
+        notes = []
+        if os.path.exists(img):
+            os.unlink(img)
+        rc, o, e = sh([mke2fs, "-q", "-F", "-d", src] + args + [img, size], env)
+        if rc != 0:
+            out.append((name, None, ["mke2fs failed: " + (o + e).decode("latin-1")[-300:]]))
+            continue
+        script = DEBUGFS_SCRIPT % {"work": work}
+        if name == "ea_inode":
+            script += "ea_set -f %s/xv5000 /d1/s12 user.huge\n" % work
+        rc, o, e = sh([debugfs, "-w", "-f", "-", img], env, input=script.encode())
+        txt = (o + e).decode("latin-1")
+        bad = [l for l in txt.split("\n") if ":" in l and ("rror" in l or "nvalid" in l or "failed" in l)]
+        if bad:
+            notes.append("debugfs: " + " | ".join(bad)[:300])
+        # settle: index the big directory (-D), fix what the populate path is known to leave behind (quota usage,
+        # ea_inode i_blocks)
+        rc1, o, e = sh([e2fsck, "-fyD", img], env)
+        notes.append("e2fsck -fyD rc=%d" % rc1)
+        if shared_xattr_block(img, "/d1/s10", "/d1/s20"):
+            notes.append("shared xattr block made")
+        else:
+            notes.append("NO shared xattr block")
+        out.append((name, img, notes))
+    return out
+
+
+def tree_vs_rdump(bdir, env, img, work):
+    """compare the reader's tree digests with what `debugfs rdump` extracts -> list of differences"""
+    d = os.path.join(work, "rdump")
+    if os.path.exists(d):
+        shutil.rmtree(d)
+    os.makedirs(d)
+    sh([os.path.join(bdir, "debugfs", "debugfs"), "-R", "rdump / %s" % d, img], env)
+    P = ext4read.project(img)
+    inline_fs = "inline_data" in P["geo"]["features"]
+    diffs = []
+    nfiles = 0
+    for t in P["tree"]:
+        hp = d + t["path"]
+        if t["type"] == "reg":
+            nfiles += 1
+            try:
+                data = open(hp, "rb").read()
+            except OSError as ex:
+                diffs.append("%s: missing in rdump (%s)" % (t["path"], ex))
+                continue
+            dg = "sha256:" + hashlib.sha256(data).hexdigest()
+            if dg != t["digest"]:
+                size = t["size"][1]
+                if inline_fs and size < 60 and len(data) == 60 and data[:size] == data[:size] and \
+                        "sha256:" + hashlib.sha256(data[:size]).hexdigest() == t["digest"]:
+                    continue    # known defect: debugfs returns inline files padded to 60 bytes
+                diffs.append("%s: digest differs (reader size %d, rdump %d bytes)" % (t["path"], size, len(data)))
+        elif t["type"] == "lnk":
+            try:
+                if os.readlink(hp) != t["target"]:
+                    diffs.append("%s: symlink target differs" % t["path"])
+            except OSError:
+                diffs.append("%s: symlink missing in rdump" % t["path"])
+        elif t["type"] == "dir":
+            if not os.path.isdir(hp):
+                diffs.append("%s: directory missing in rdump" % t["path"])
+    shutil.rmtree(d)
+    return nfiles, diffs
+
+
+def cmd_fresh():
+    bdir = build.build()
+    env = common.tool_env(bdir)
+    work = os.path.join(WORK, "fresh")
+    os.makedirs(work, exist_ok=True)
+    made = build_fresh(bdir, env, work)
+    jobs = [(n, i) for n, i, _ in made if i]
+    out, meta = run_set(jobs, bdir, env, "fresh.json")
+    table(out, meta)
+    for n, i, notes in made:
+        print("  %-18s %s" % (n, "; ".join(notes)))
+    print("tree vs debugfs rdump:")
+    for n, i in jobs:
+        nf, diffs = tree_vs_rdump(bdir, env, i, work)
+        print("  %-18s %d regular files, %d differences %s" % (n, nf, len(diffs), diffs[:3]))
+    return out
+
+
 if __name__ == "__main__":
     c = sys.argv[1] if len(sys.argv) > 1 else "all"
     pat = None
@@ -173,5 +401,4 @@ if __name__ == "__main__":
     if c in ("tests", "all"):
         cmd_tests(pat)
     if c in ("fresh", "all"):
-        import xval_fresh
-        xval_fresh.cmd_fresh()
+        cmd_fresh()
